@@ -103,16 +103,16 @@ Proof. intro E. unfold RW.step. rewrite E. split; [reflexivity|]. eexists. split
 
 (* which of the two write-guard drops happens is PoisonModel's decision: the RwLockModel actions of a write guard
    dropped in situation (gpan, tpan, isco, cst) *)
-Definition rw_write_drop (gpan tpan isco : bool) (cst : Z) (a : nat) : list RW.action :=
-  if drop_poisons GW gpan tpan isco cst then [RW.Panic a; RW.Step a] else [RW.Drop a].
+Definition rw_write_drop (fixd gpan tpan isco : bool) (cst : Z) (cunw : bool) (a : nat) : list RW.action :=
+  if drop_poisons fixd GW gpan tpan isco cst cunw then [RW.Panic a; RW.Step a] else [RW.Drop a].
 
-Theorem rw_write_drop_sets_exactly_the_decision gpan tpan isco cst s a :
+Theorem rw_write_drop_sets_exactly_the_decision fixd gpan tpan isco cst cunw s a :
   RW.apc (RW.A s a) = RW.HoldW ->
-  exists s', RW.run s (rw_write_drop gpan tpan isco cst a) = Some s' /\
-             RW.pois s' = RW.pois s || drop_poisons GW gpan tpan isco cst /\
+  exists s', RW.run s (rw_write_drop fixd gpan tpan isco cst cunw a) = Some s' /\
+             RW.pois s' = RW.pois s || drop_poisons fixd GW gpan tpan isco cst cunw /\
              RW.apc (RW.A s' a) = RW.U0 /\ RW.afor (RW.A s' a) = Some a /\ RW.cnt s' = RW.cnt s /\ RW.holder s' = RW.holder s.
 Proof.
-  intro E. unfold rw_write_drop. destruct (drop_poisons GW gpan tpan isco cst).
+  intro E. unfold rw_write_drop. destruct (drop_poisons fixd GW gpan tpan isco cst cunw).
   - cbn [RW.run]. unfold RW.step at 1. rewrite E. cbn [RW.wA RW.A RW.step]. rewrite MI.upd_eq. cbn [RW.set_pc RW.apc].
     eexists. split; [reflexivity|]. cbn. unfold RW.upd. rewrite Nat.eqb_refl. cbn. rewrite orb_true_r. auto.
   - cbn [RW.run]. unfold RW.step. rewrite E. eexists. split; [reflexivity|]. cbn. unfold RW.upd. rewrite Nat.eqb_refl. cbn.
@@ -124,6 +124,7 @@ End RwDrop.
 Section MutexSim.
 Variable isco : nat -> bool.        (* PoisonModel: which tasks are coroutines *)
 Variable ismutex : nat -> bool.
+Variable fixd : bool.
 Variable iscoM : nat -> bool.       (* MutexModel: which actors (= guards) are coroutines; irrelevant on these paths *)
 Variable l : nat.                   (* the Mutex *)
 Hypothesis Lm : ismutex l = true.
@@ -163,11 +164,11 @@ Lemma on_l_find ps t g : find_g (gid g) (held (T ps t)) = Some g -> on_l ps t (g
 Proof. intro F. unfold on_l. rewrite F. reflexivity. Qed.
 
 Theorem mutex_simulation ps ms a ps' :
-  Reach isco ismutex ps -> Rel ps ms -> step isco ismutex ps a = Some ps' ->
+  Reach isco ismutex fixd ps -> Rel ps ms -> step isco ismutex fixd ps a = Some ps' ->
   exists ms', msteps ms (tr ps a) = Some ms' /\ Rel ps' ms'.
 Proof.
-  intros R [Q RL] H. pose proof (inv_reach _ _ _ R) as I.
-  destruct (step_shape2 _ _ _ _ _ H) as [(t & l0 & k & -> & AL & KO & AV & ->)|[(t & g0 & AD & F0 & G0 & ->)|(HL & HN & NA)]].
+  intros R [Q RL] H. pose proof (inv_reach _ _ _ _ R) as I.
+  destruct (step_shape2 _ _ _ _ _ _ H) as [(t & l0 & k & -> & AL & KO & AV & ->)|[(t & g0 & AD & F0 & G0 & ->)|(HL & HN & NA)]].
   - (* Lock *)
     destruct (Nat.eq_dec l0 l) as [->|NL].
     + assert (k = GM) by (unfold kind_ok in KO; rewrite Lm in KO; destruct k; cbn in KO; congruence). subst k.
@@ -234,11 +235,11 @@ Qed.
 (* so: every run of the guard life cycle, with panics, cancellations, nested unwindings, is a run of MutexModel for
    the Mutex l, in which each guard drop is the one unlock path of (A) *)
 Theorem mutex_simulation_run acts : forall ps ms ps',
-  Reach isco ismutex ps -> M.Reach iscoM ms -> Rel ps ms -> run isco ismutex ps acts = Some ps' ->
+  Reach isco ismutex fixd ps -> M.Reach iscoM ms -> Rel ps ms -> run isco ismutex fixd ps acts = Some ps' ->
   exists ms', M.Reach iscoM ms' /\ Rel ps' ms'.
 Proof.
   induction acts as [|a r IH]; cbn [run]; intros ps ms ps' RP RM RL H; [inversion H; subst; eauto|].
-  destruct (step isco ismutex ps a) as [ps1|] eqn:E; [|discriminate].
+  destruct (step isco ismutex fixd ps a) as [ps1|] eqn:E; [|discriminate].
   destruct (mutex_simulation _ _ _ _ RP RL E) as (ms1 & S & RL1).
   eapply IH; [eapply RS; eassumption | eapply msteps_reach; eassumption | exact RL1 | exact H].
 Qed.
